@@ -192,6 +192,9 @@ func gen(t *rapid.T) world {
 		if i == 0 {
 			a.Kind = "live"
 		}
+		if i > 0 && w.actions[len(w.actions)-1].Kind == "corrupt" && rapid.IntRange(0, 2).Draw(t, "writenext") > 0 {
+			a.Kind = "write" // the event that cannot be decoded is a write, more often than not
+		}
 		switch a.Kind {
 		case "live":
 			k := rapid.IntRange(0, 3).Draw(t, "ncols")
